@@ -46,6 +46,13 @@ def cases(tier: str, rng: random.Random) -> List[Case]:
                   ("VObj", N(G.C_DATA), [P(G.S("a"), G.I(1)), P(G.S("b"), G.I(5))])]:
             for m in ("sync", "async"):
                 out.append(std_case(v, x, m, tag="a:typev"))
+    # TypeValidator with a coercer and nothing else configured (the coercer decides, not the exact-type fast path)
+    for t in [("TInt",), ("TClass", N(G.C_PLAIN)), ("TDict",)]:
+        for co in (Some(("CoUser", N(0))), Some(("CoUser", N(1))), Some(("CoUser", N(5)))):
+            v = ("Scalar", ("KType", t), co, [], [], [])
+            for x in [G.OBJ, G.I(1), G.TRUE, G.S("a"), G.S("1"), ("VDict", []), G.NONE, G.F1]:
+                for m in ("sync", "async"):
+                    out.append(std_case(v, x, m, tag="a:typev-coerce"))
     # several type validators for different types in one tree (each names its own type when it rejects)
     tv = lambda t_, ps=(): ("Scalar", ("KType", t_), None, [], list(ps), [])
     TI, TS, TD = ("TInt",), ("TStr",), ("TDict",)
